@@ -1,10 +1,13 @@
 import Dcg.Driver.Proto
 import Dcg.Model.Sort
+import Dcg.Model.SortPost
 /-!
 Line protocol for `Model.Sort`.
   sort.data <rc> ((path (refs…) (bases…)) …)      → ok (unresolved…) (sorted…) (upd…) | err <kind>
   sort.bubble <fuel> ((path (refs…) (bases…)) …)  → ok <passes> (paths…) | none
   sort.models <fuel> (imported…) ((name (bases…)) …) → ok (names…) | none      (names as x41,42)
+  sort.stack <hatch 0|1> <stack> <rc> ((path (refs…) (bases…)) …) → as sort.data | err recursionError
+  sort.reuse ((path key) …) (upd…) → ok ((path reuse01 base|-) …) (upd as p or p/r …) (footer …)
 -/
 namespace Dcg.Driver.Sort
 open Dcg.Driver Dcg.Model.Sort
@@ -52,7 +55,36 @@ def bubbleCount : Nat → Nat → List Model → Option (Nat × List Model)
     let l' := bubblePass l
     if l' = l then some (k + 1, l) else bubbleCount f (k + 1) l'
 
+def rpath? : SX → Option Rendered
+  | .list [p, k] => do
+    let p ← p.nat?
+    let k ← k.nat?
+    pure ⟨(p, false), k, none⟩
+  | _ => none
+
+def showRPath (p : RPath) : String := toString p.1 ++ (if p.2 then "r" else "")
+def showRPaths (ps : List RPath) : String := "(" ++ " ".intercalate (ps.map showRPath) ++ ")"
+
 def handlers : List (String × Handler) := [
+  ("sort.stack", fun
+    | [h, st, rc, ms] => match h.nat?, st.nat?, rc.nat?, models? ms with
+      | some h, some st, some rc, some ms => match sortDataModelsS (h != 0) st rc ms with
+        | .ok o => "ok " ++ showPaths o.unresolved ++ " " ++ showPaths o.sorted ++ " " ++ showNats o.upd
+        | .error (.sorter .circularBases) => "err circularBases"
+        | .error (.sorter .unresolved) => "err unresolved"
+        | .error .recursionError => "err recursionError"
+      | _, _, _, _ => "err args"
+    | _ => "err args"),
+  ("sort.reuse", fun
+    | [.list ms, upd] => match ms.mapM rpath?, nats? upd with
+      | some ms, some upd =>
+        let u := upd.map (fun p => ((p, false) : RPath))
+        let r := reusePass ms u
+        "ok (" ++ " ".intercalate (r.1.map (fun m => "(" ++ showRPath m.path ++ " " ++
+            (match m.reuseOf with | some c => showRPath c | none => "-") ++ ")")) ++ ") " ++
+          showRPaths r.2 ++ " " ++ showRPaths (emitFooter ms u)
+      | _, _ => "err args"
+    | _ => "err args"),
   ("sort.data", fun
     | [rc, ms] => match rc.nat?, models? ms with
       | some rc, some ms => match sortDataModels rc ms with
